@@ -256,6 +256,11 @@ func (v *vdrRun) forkDisk(f *core.VerifVdrFork, tree map[string]vdrEnt, useEver 
 		ent := fmt.Sprintf("%s:%d:%s", hx(path.Join(v.psdir, rel)), sizeAsWalked(rel, src[rel]), kind)
 		if alts := src[rel].Alts; len(alts) > 0 {
 			ent += ":" + hxList(alts)
+		} else if !useEver && src[rel].Hash != 0 {
+			ent += ":."
+		}
+		if !useEver && src[rel].Hash != 0 {
+			ent += fmt.Sprint(":", src[rel].Hash)
 		}
 		parts = append(parts, ent)
 	}
@@ -293,12 +298,34 @@ func vdrFlags(f *core.VerifVdrFork) string {
 }
 
 func (v *vdrRun) expectState(f *core.VerifVdrFork, removed []string, rep *vdrReport, newPaths []string) string {
+	return v.expectStateH(f, removed, rep, newPaths, 0)
+}
+
+// keptHash: the sum of the CURRENT content hashes of the fork's entries of `before` that are still there in `after`.
+func (v *vdrRun) keptHash(f *core.VerifVdrFork, before, after map[string]vdrEnt) uint64 {
+	dir := v.rel(f.Path)
+	var sum uint64
+	for rel, e := range before {
+		if !strings.HasPrefix(rel, dir+"/") || e.Hash == 0 {
+			continue
+		}
+		if jd, _, ok := stageRegion(rel); !ok || path.Dir(jd) != dir {
+			continue
+		}
+		if a, ok := after[rel]; ok {
+			sum += uint64(a.Hash)
+		}
+	}
+	return sum % 4294967296
+}
+
+func (v *vdrRun) expectStateH(f *core.VerifVdrFork, removed []string, rep *vdrReport, newPaths []string, kept uint64) string {
 	cnt, size := uint64(0), uint64(0)
 	if rep != nil {
 		cnt, size = rep.Count, rep.Size
 	}
-	return fmt.Sprintf("final=%v removed=%s count=%d size=%d paths=%s fileargs=%s postnodes=%s",
-		f.HasKill, vdrHexPaths(removed), cnt, size, vdrHexPaths(vdrTopLevel(newPaths)),
+	return fmt.Sprintf("final=%v removed=%s count=%d size=%d paths=%s kepthash=%d fileargs=%s postnodes=%s",
+		f.HasKill, vdrHexPaths(removed), cnt, size, vdrHexPaths(vdrTopLevel(newPaths)), kept,
 		vdrHexAssoc(f.FileArgs, true), vdrHexAssoc(f.FilePostNodes, false))
 }
 
@@ -438,7 +465,7 @@ func (v *vdrRun) modelChecksOn(pre, pk *vdrSnapshot, label string, lifeReplay bo
 				vdrHexAssoc(f.FileArgs, true), vdrHexAssoc(f.FilePostNodes, false), cache,
 				v.forkDisk(f, pre.Tree, false), ran, repSoFar, doneHex, "k"}
 			v.res.Checks = append(v.res.Checks, VdrModelCheck{Name: "partialVdrKill_step", Req: req,
-				Expect: v.expectState(g, v.goneUnder(f, pre.Tree, pk.Tree), postRep, newPaths),
+				Expect: v.expectStateH(g, v.goneUnder(f, pre.Tree, pk.Tree), postRep, newPaths, v.keptHash(f, pre.Tree, pk.Tree)),
 				What:   "one partialVdrKill of " + f.Fqname + " (" + label + ") from the real bookkeeping state: removed entries, report totals and remaining bookkeeping"})
 			if !lifeReplay {
 				v.hist("model-step-at-failure")
